@@ -30,7 +30,7 @@ var capOffsets = []int{-1, 0, 1, -1, 0, 1, -8, 8, -100, 100, -2, 2}
 func c19Cfg(r *Rng, limit int) (line string, ext bool, thr int) {
 	ext = r.Chance(55)
 	thr = Pick(r, []int{1, 64, 200, 800, 1600, 4000})
-	zstd := ext && r.Chance(35)
+	zstd := ext && r.Chance(6) // the server builds a fresh zstd encoder per upload (~40 ms): keep it rare
 	return fmt.Sprintf("cfg cache=%d limit=%d ext=%d thr=%d zstd=%d", b2i(r.Chance(70)), limit, b2i(ext), thr, b2i(zstd)), ext, thr
 }
 
